@@ -287,6 +287,41 @@ def harness_env(flavour, extra_env=None):
     return env
 
 
+BLOCK_S = float(os.environ.get("VERIF_BLOCK_S", "20"))
+
+
+def _proc_cpu_state(pid):
+    """(utime+stime in clock ticks of the whole process, state letter of its main thread) or None"""
+    try:
+        with open("/proc/%d/stat" % pid, "rb") as f:
+            b = f.read().decode("ascii", "replace")
+        rest = b[b.rindex(")") + 2:].split()
+        return int(rest[11]) + int(rest[12]), rest[0]
+    except Exception:
+        return None
+
+
+class BlockDetector:
+    """DESIGN 1.3: a worker that is inside one case, consumes no CPU and is not runnable for BLOCK_S seconds is
+    blocked (deadlock, lost wake-up), not slow.  It gets SIGALRM, which its harness runtime turns into a
+    'stall:<phase>' witness and exit 98 - the same path as the harness' own (much longer, load tolerant) wall
+    clock alarm.  A starved or busy process (state R, or CPU time advancing) is never touched."""
+
+    def __init__(self):
+        self.last = {}   # pid -> (idx, cpu, t_since)
+
+    def poll(self, pid, idx, now):
+        cs = _proc_cpu_state(pid)
+        if cs is None:
+            return False
+        cpu, st = cs
+        prev = self.last.get(pid)
+        if prev is None or prev[0] != idx or cpu - prev[1] >= 2 or st == "R":
+            self.last[pid] = (idx, cpu, now)
+            return False
+        return now - prev[2] >= BLOCK_S
+
+
 class Worker:
     def __init__(self, exe, job, tier, seed, start, n, workdir, tag, env):
         self.exe, self.job, self.tier, self.seed = exe, job, tier, seed
@@ -359,7 +394,21 @@ def run_job(spec, job, tier, seed, res, repo, only_case=None, verbose=False):
                 cmd = ["valgrind", "--tool=memcheck", "-q", "--track-origins=yes", "--leak-check=no", "--num-callers=14",
                        "--error-limit=no"] + cmd
             log("replay: " + " ".join(cmd))
-            p = subprocess.run(cmd, env=env, cwd=workdir, stderr=subprocess.PIPE, text=True, errors="replace")
+            errp = os.path.join(workdir, "replay.stderr")
+            stp = os.path.join(workdir, "replay.status")
+            with open(errp, "wb") as ef:
+                pr = subprocess.Popen(cmd + ["--status", stp], env=env, cwd=workdir, stderr=ef)
+                bd = BlockDetector()
+                while pr.poll() is None:
+                    time.sleep(1.0)
+                    if pr.poll() is None and bd.poll(pr.pid, 0, time.time()):
+                        bd.last.pop(pr.pid, None)
+                        pr.send_signal(signal.SIGALRM)
+            class _P:
+                pass
+            p = _P()
+            p.returncode = pr.returncode
+            p.stderr = open(errp, "r", errors="replace").read()
             sys.stdout.write(p.stderr[-6000:])
             _collect(outp, job, res)
             for case, text in split_by_case(p.stderr):
@@ -391,11 +440,24 @@ def run_job(spec, job, tier, seed, res, repo, only_case=None, verbose=False):
         restarts = 0
         slow_deaths = 0
         stopped_early = False
+        bd = BlockDetector()
+        t_bd = time.time()
         while active:
             time.sleep(0.05)
+            check_blocked = time.time() - t_bd >= 1.0
+            if check_blocked:
+                t_bd = time.time()
             for wk in list(active):
                 rc = wk.proc.poll()
                 if rc is None:
+                    if check_blocked and bd.poll(wk.proc.pid, wk.status_idx(), t_bd):
+                        bd.last.pop(wk.proc.pid, None)
+                        res.count("workers_found_blocked_by_driver")
+                        try:
+                            wk.proc.send_signal(signal.SIGALRM)
+                        except Exception:
+                            pass
+                        continue
                     if time.time() > deadline:
                         wk.proc.kill()
                         wk.proc.wait()
